@@ -1,3 +1,78 @@
 import TlsModel.Proto
-/- driver stub for C11: replaced when the model exists -/
-def main : IO Unit := Tls.protoMain (fun _ => none)
+import TlsModel.RsaDecrypt
+/-
+  Driver for C11.
+    dec  nhex dhex emhex chex shatable hmactable   -> none | some <hex> | error <name>
+         RSAKey.decrypt model.  `emhex` is the value the real key's private operation returns for
+         the ciphertext (oracle value for `_rawPrivateKeyOp`); `shatable` = comma separated
+         `in:out` pairs, `hmactable` = comma separated `key:msg:out` triples, all hex, computed by
+         the harness with hashlib/hmac.  A lookup miss returns the empty string (and then the
+         reply differs from the implementation's).
+    synth k kdkhex hmactable                       -> hex | error <name>   (synthMessage)
+    parse emhex                                    -> none | <msg start>   (parseEM, the plain spec)
+    cke  cvmaj cvmin svmaj svmin randhex decres    -> hex   (substitutePremaster; decres = none|hex)
+    nbits x / nbytes x (hex)                       -> decimal
+-/
+open Tls Tls.RsaDec
+
+def splitTable (s : String) : List String := if s == "-" then [] else s.splitOn ","
+
+def parseSha (s : String) : Option (List (Bytes × Bytes)) :=
+  (splitTable s).mapM fun e =>
+    match e.splitOn ":" with
+    | [a, b] => do pure (← ofHex a, ← ofHex b)
+    | _ => none
+
+def parseHmac (s : String) : Option (List (Bytes × Bytes × Bytes)) :=
+  (splitTable s).mapM fun e =>
+    match e.splitOn ":" with
+    | [a, b, c] => do pure (← ofHex a, ← ofHex b, ← ofHex c)
+    | _ => none
+
+def lookupSha (t : List (Bytes × Bytes)) (x : Bytes) : Bytes :=
+  match t.find? (fun e => e.1 == x) with
+  | some e => e.2
+  | none => []
+
+def lookupHmac (t : List (Bytes × Bytes × Bytes)) (k m : Bytes) : Bytes :=
+  match t.find? (fun e => e.1 == k && e.2.1 == m) with
+  | some e => e.2.2
+  | none => []
+
+def handle : List String → Option String
+  | ["dec", n, d, em, c, sha, hm] => do
+    let n := beDecode (← ofHex n)
+    let d := beDecode (← ofHex d)
+    let em := beDecode (← ofHex em)
+    let c ← ofHex c
+    let sha ← parseSha sha
+    let hm ← parseHmac hm
+    let K : Key := { n := n, d := d }
+    let P : Prims := { sha256 := lookupSha sha, hmac := lookupHmac hm, privInt := fun _ => em }
+    match decrypt K P c with
+    | .error e => some ("error " ++ e.name)
+    | .ok none => some "none"
+    | .ok (some m) => some ("some " ++ hexOut m)
+  | ["synth", k, kdk, hm] => do
+    let k ← k.toNat?
+    let kdk ← ofHex kdk
+    let hm ← parseHmac hm
+    match synthMessage (lookupHmac hm) k kdk with
+    | .error e => some ("error " ++ e.name)
+    | .ok m => some (hexOut m)
+  | ["parse", em] => do
+    let em ← ofHex em
+    match parseEM em with
+    | none => some "none"
+    | some s => some (toString s)
+  | ["cke", cvmaj, cvmin, svmaj, svmin, rand, dec] => do
+    let cv := ((← cvmaj.toNat?), (← cvmin.toNat?))
+    let sv := ((← svmaj.toNat?), (← svmin.toNat?))
+    let rand ← ofHex rand
+    let dec ← (if dec == "none" then some none else (ofHex dec).map some)
+    some (hexOut (substitutePremaster dec rand cv sv))
+  | ["nbits", x] => do some (toString (numBits (beDecode (← ofHex x))))
+  | ["nbytes", x] => do some (toString (numBytes (beDecode (← ofHex x))))
+  | _ => none
+
+def main : IO Unit := protoMain handle
